@@ -30,10 +30,23 @@ def fpval(x: float, sort=F64):
 
 
 class SymFloat:
-    __slots__ = ("e",)
+    __slots__ = ("e", "bits")
 
-    def __init__(self, e):
+    def __init__(self, e, bits=None):
         self.e = e
+        self.bits = bits  # exact IEEE-754 binary64 pattern when known (inputs created by var_raw): NaN payloads visible
+
+    @staticmethod
+    def var_raw(name) -> "SymFloat":
+        """an arbitrary double given by its 64-bit pattern (every NaN payload, both zeros)"""
+        b = z3.BitVec(name, 64)
+        r = SymFloat(z3.fpBVToFP(b, F64), b)
+        cur().named[name] = b
+        return r
+
+    def pattern(self):
+        """64-bit pattern; for values without a tracked pattern all NaNs share z3's single NaN"""
+        return self.bits if self.bits is not None else z3.fpToIEEEBV(self.e)
 
     @staticmethod
     def var(name) -> "SymFloat":
@@ -231,6 +244,35 @@ def int_truediv(a, b):
 
 
 hook.INT_HANDLERS.append(_int_handler)
+
+
+_HF = z3.Function("cpython_float_hash", F64, z3.BitVecSort(64))
+_HB = z3.Function("cpython_bytes_hash", z3.BitVecSort(64), z3.BitVecSort(64))
+_nan_ids = [0]
+
+
+def float_hash(x: "SymFloat"):
+    """CPython's contract for hash(float): numerically equal non-NaN values hash equal (so hash(0.0) == hash(-0.0));
+    a NaN hashes by object identity (arbitrary value per object)."""
+    _nan_ids[0] += 1
+    fresh = z3.BitVec(f"__nanhash_{_nan_ids[0]}_{len(cur().trace)}", 64)
+    e = z3.If(z3.fpIsNaN(x.e), fresh, z3.If(z3.fpIsZero(x.e), _HF(z3.fpPlusZero(F64)), _HF(x.e)))
+    return SymInt(e, -(1 << 63), (1 << 63) - 1)
+
+
+def _hash_handler(x):
+    if type(x) is SymFloat:
+        return float_hash(x)
+    from .shim_struct import SymPacked
+
+    if type(x) is SymPacked:
+        if len(x.values) == 1:
+            return SymInt(_HB(x.values[0].pattern()), -(1 << 63), (1 << 63) - 1)
+        raise Unsupported("hash of multi-value packed buffer")
+    return NotImplemented
+
+
+hook.SIMPLE_CALLS.setdefault("hash", []).append(_hash_handler)
 
 
 def isnan(x):
